@@ -39,6 +39,10 @@ class _Break(Exception):
     pass
 
 
+class _GeneratorExit(Exception):
+    pass
+
+
 class _Continue(Exception):
     pass
 
@@ -300,7 +304,15 @@ class Machine:
                         # small integers): the model takes them to be
                         # distinct objects
                         values = (int, float, str, tuple, frozenset)
-                        if isinstance(left, values) and isinstance(
+                        tagged = (('class',), ('closure',), ('lambda',),
+                                  ('builtin',), ('method',))
+                        if isinstance(left, tuple) and left[:1] in tagged \
+                                or isinstance(right, tuple) and \
+                                right[:1] in tagged:
+                            # classes and functions of the program are
+                            # objects with an identity
+                            ok = left is right
+                        elif isinstance(left, values) and isinstance(
                                 right, values) and not isinstance(
                                     left, bool) and not isinstance(
                                         right, bool):
@@ -512,6 +524,12 @@ class Machine:
             sub = Machine(env, self.stubs, resolver)
             sub.steps = self.steps
             return sub.ev(node.body)
+        if isinstance(f, tuple) and f and f[0] == 'closure' and any(
+                au.src(d).rsplit('.', 1)[-1] == 'contextmanager'
+                for d in f[1].decorator_list):
+            # `@contextlib.contextmanager`: the body runs inside the
+            # `with` statement that uses the result (see `stmt`)
+            return ('ctxgen', f, list(args), dict(kw or {}))
         if isinstance(f, tuple) and f and f[0] == 'closure':
             fn = f[1]
             resolver = f[2] if len(f) > 2 and f[2] is not None \
@@ -842,6 +860,12 @@ class Machine:
         if isinstance(s, ast.Expr):
             if isinstance(s.value, ast.Constant):
                 return
+            if isinstance(s.value, ast.Yield) and getattr(
+                    self, 'yield_hook', None) is not None:
+                hook, self.yield_hook = self.yield_hook, None
+                hook(self.ev(s.value.value)
+                     if s.value.value is not None else None)
+                return
             if isinstance(s.value, (ast.Yield, ast.YieldFrom)):
                 if self.yields is None:
                     raise Unknown('yield outside a generator function')
@@ -880,6 +904,14 @@ class Machine:
             return
         if isinstance(s, ast.ClassDef):
             self.env[s.name] = ('class', s, self.resolver, self.env)
+            return
+        if isinstance(s, ast.Import):
+            for a in s.names:
+                if a.name not in _STDLIB:
+                    raise Unknown(f'import {a.name}')
+                self.env[a.asname or a.name] = Sym(f'module {a.name}', {
+                    k: ('builtin', f'{a.name}.{k}')
+                    for k in _STDLIB[a.name]})
             return
         if isinstance(s, ast.For):
             broke = False
@@ -937,7 +969,12 @@ class Machine:
                         if _catches(h, r.name):
                             if h.name:
                                 self.env[h.name] = Sym(r.name)
-                            self.run(h.body)
+                            prev = getattr(self, 'handling', None)
+                            self.handling = r
+                            try:
+                                self.run(h.body)
+                            finally:
+                                self.handling = prev
                             break
                     else:
                         raise
@@ -947,9 +984,58 @@ class Machine:
                 self.run(s.finalbody)
             return
         if isinstance(s, ast.With):
+            # a context made by a `contextmanager` generator: its body is
+            # run here, and the rest of this statement at its `yield`
+            for k, item in enumerate(s.items):
+                v = self.ev(item.context_expr) if k == 0 else None
+                if k == 0 and isinstance(v, tuple) and v[:1] == ('ctxgen',):
+                    rest = ast.With(items=s.items[1:], body=s.body) \
+                        if len(s.items) > 1 else None
+                    if rest is not None:
+                        ast.copy_location(rest, s)
+
+                    pending = []
+
+                    def at_yield(value, item=item, rest=rest):
+                        if item.optional_vars is not None:
+                            self.store(item.optional_vars, value)
+                        try:
+                            if rest is not None:
+                                self.stmt(rest)
+                            else:
+                                self.run(s.body)
+                        except (Returned, _Break, _Continue) as ex:
+                            # leaves the `with`: the generator is closed
+                            # at its `yield` (its `finally` blocks run)
+                            pending.append(ex)
+                            raise _GeneratorExit()
+                    clo = v[1]
+                    fn = clo[1]
+                    res = clo[2] if len(clo) > 2 and clo[2] is not None \
+                        else self.resolver
+                    env = dict(clo[3]) if len(clo) > 3 and \
+                        clo[3] is not None else dict()
+                    ps = [x.arg for x in fn.args.posonlyargs + fn.args.args]
+                    env.update(zip(ps, v[2]))
+                    env.update(v[3])
+                    sub = Machine(env, self.stubs, res)
+                    sub.yield_hook = at_yield
+                    try:
+                        sub.run(fn.body)
+                    except Returned:
+                        pass
+                    except _GeneratorExit:
+                        pass
+                    if pending:
+                        raise pending[0]
+                    if sub.yield_hook is not None:
+                        raise Raised('RuntimeError', s)
+                    return
+                break
             managers = []
-            for item in s.items:
-                v = self.ev(item.context_expr)
+            first_value = v if s.items else None
+            for k, item in enumerate(s.items):
+                v = first_value if k == 0 else self.ev(item.context_expr)
                 entered = v
                 if isinstance(v, Sym) and getattr(v, 'cls', None):
                     enter = self.method_of(v, '__enter__')
@@ -965,9 +1051,16 @@ class Machine:
             except Raised as r:
                 # innermost first; a true result swallows the exception
                 swallowed = False
+                # the exception class, as the program names it
+                etype = Sym(r.name)
+                if self.resolver is not None:
+                    try:
+                        etype = self.resolver(r.name)
+                    except KeyError:
+                        pass
                 for v, leave in reversed(managers):
                     if self.apply_callable(leave, [
-                            v, Sym(r.name), Sym(f'{r.name} instance'),
+                            v, etype, Sym(f'{r.name} instance'),
                             Sym('traceback')]):
                         swallowed = True
                         break
@@ -985,6 +1078,9 @@ class Machine:
             raise Returned(self.ev(s.value) if s.value is not None
                            else None)
         if isinstance(s, ast.Raise):
+            if s.exc is None and getattr(self, 'handling', None):
+                # a bare `raise` in a handler: the exception being handled
+                raise Raised(self.handling.name, s)
             raise Raised(au.raised_name(s) or '?', s)
         if isinstance(s, ast.Assert):
             if not self.ev(s.test):
@@ -1075,6 +1171,7 @@ _STDLIB = {
     'operator': {'itemgetter', 'neg', 'not_', 'and_', 'or_', 'add', 'sub'},
     'bisect': {'bisect_left', 'bisect_right'},
     'collections': {'defaultdict', 'OrderedDict', 'deque'},
+    'contextlib': {'contextmanager'},
 }
 
 
